@@ -23,6 +23,7 @@ import OFV.Proofs.C08Iter
 import OFV.Proofs.C08Fock
 import OFV.Proofs.C08Car
 import OFV.Proofs.C08Maj
+import OFV.Proofs.C08Comp
 
 namespace OFV.C08
 open OFV OFV.Spec OFV.Spec.C08 OFV.Model.C08 OFV.C08P
@@ -191,6 +192,23 @@ theorem rotated_ladder_car_unitary (n : Nat) (R : Mat)
 example : ∀ a < 2, ∀ b < 2,
     sumN 2 (fun P => matGet [[0, GQ.I], [1, 0]] b P * matGet (conjMat [[0, GQ.I], [1, 0]]) a P)
       = if a = b then 1 else 0 := by decide +kernel
+
+/-- **successive rotations compose**: `general_basis_change` by `R1` followed by `R2` denotes the
+same polynomial (for every weight on words, hence the same matrix elements) as one basis change
+by the matrix product `R1 · R2` — keys of any order, mixed actions, complex matrices. -/
+theorem basis_change_compose (n : Nat) (R1 R2 : Mat) (key : Key) (T : Tensor)
+    (hT : Shaped n key.length T) (w : List (Nat × Nat) → GQ) :
+    evalW w (denoteTensor key (basisChange n R2 key (basisChange n R1 key T)))
+      = evalW w (denoteTensor key (basisChange n (matMul n R1 R2) key T)) := by
+  rw [evalW_denoteTensor, evalW_denoteTensor]
+  exact basisChange_comp n R1 R2 key T hT _
+
+theorem basis_change_compose_mel (n : Nat) (R1 R2 : Mat) (key : Key) (T : Tensor)
+    (hT : Shaped n key.length T) (t s : Nat) :
+    melF (denoteTensor key (basisChange n R2 key (basisChange n R1 key T))) t s
+      = melF (denoteTensor key (basisChange n (matMul n R1 R2) key T)) t s := by
+  rw [melF_eq_evalW, melF_eq_evalW]
+  exact basis_change_compose n R1 R2 key T hT _
 
 /-- the rotated array has the shape of the input -/
 theorem basis_change_shape (n : Nat) (R : Mat) (key : Key) (T : Tensor)
